@@ -265,6 +265,45 @@ func c09Families(tier string) []explore.Family {
 			r.Violation("law:array-equality-is-element-wise", map[string]any{"a": A.name, "b": B.name, "template": "a == b | [a] == [b] | [a] contains b | [[a]] == [[b]] | not([a] != [b])"}, "five equal answers", o.String())
 		}
 	}})
+	// contains tests a map KEY, however the map is typed: generic, interface-keyed (what YAML decoding produces),
+	// keyed by a named string type, with typed values; a key bound to nil is still a key
+	type mrep struct {
+		name string
+		m    any
+	}
+	one := 1
+	mreps := []mrep{
+		{"map[string]any", map[string]any{"a": 1, "b": nil, "": 2}}, {"map[any]any", map[any]any{"a": 1, "b": nil, "": 2}},
+		{"map[NamedString]any", map[univ.NamedString]any{"a": 1, "b": nil, "": 2}}, {"map[string]*int", map[string]*int{"a": &one, "b": nil, "": &one}},
+		{"map[string]int", map[string]int{"a": 1, "b": 0, "": 2}}, {"Drop yielding map[any]any", univ.Drop{V: map[any]any{"a": 1, "b": nil, "": 2}}},
+		{"pointer to map", &map[string]any{"a": 1, "b": nil, "": 2}},
+	}
+	mprobes := []struct {
+		lit  string
+		want bool
+	}{{"'a'", true}, {"'b'", true}, {"''", true}, {"'zz'", false}, {"'A'", false}, {"ka", true}, {"kz", false}, {"nil", false}, {"1", false}, {"kd", true}}
+	fams = append(fams, explore.Family{Name: "map-key-containment-by-representation", Count: int64(len(mreps) * len(mprobes)), Run: func(i int64, r *explore.Rec) {
+		mp, pr := mreps[int(i)/len(mprobes)], mprobes[int(i)%len(mprobes)]
+		src := "{% if m contains " + pr.lit + " %}T{% else %}F{% endif %}"
+		r.Eval()
+		r.Transition()
+		o := Render(c09.eng, src, map[string]any{"m": mp.m, "ka": "a", "kz": "z", "kd": univ.Drop{V: "b"}})
+		r.Class("map-key/" + o.Out)
+		r.State("map-key")
+		want := map[bool]string{true: "T", false: "F"}[pr.want]
+		if o.Panic != nil || o.Err != nil || o.Out != want {
+			r.Violation("rule:contains:map-key-by-representation", map[string]any{"template": src, "m": mp.name + ` {"a":1,"b":nil,"":2}`, "ka": "a", "kz": "z", "kd": "Drop yielding b"}, want, o.String())
+		}
+	}})
+	// interface-keyed maps with keys of other kinds: a key is found by a probe == to it
+	fams = append(fams, explore.Family{Name: "map-keys-of-other-kinds", Count: 1, Run: func(i int64, r *explore.Rec) {
+		src := "{% if m contains 1 %}T{% else %}F{% endif %}{% if m contains 2 %}T{% else %}F{% endif %}{% if m contains true %}T{% else %}F{% endif %}{% if m contains '1' %}T{% else %}F{% endif %}{% if m contains 2.5 %}T{% else %}F{% endif %}{% if m contains 3.5 %}T{% else %}F{% endif %}"
+		r.Eval()
+		o := Render(c09.eng, src, map[string]any{"m": map[any]any{1: "x", true: "y", 2.5: "z"}})
+		if o.Panic != nil || o.Err != nil || o.Out != "TFTFTF" {
+			r.Violation("rule:contains:map-keys-of-other-kinds", map[string]any{"template": src, "m": `map[any]any{1:"x", true:"y", 2.5:"z"}`}, "TFTFTF", o.String())
+		}
+	}})
 	// the same relations spelled with literals (where both operands have a literal form)
 	var lits []univ.Val
 	for _, v := range c09.u {
